@@ -8,6 +8,7 @@ import typing
 from hypothesis import strategies as st
 
 from ..core import Info, Part, Ctx, Violation, HarnessError, require, guarded
+from .. import core
 from ..gen import workspace as wsp
 from . import _nsutil as nu
 from . import c09
@@ -95,7 +96,8 @@ def _outcome(fn: typing.Callable[..., typing.Any], ws: typing.Any, d: str, print
     import pydsdl
 
     try:
-        res = fn(lambda p, l, t: prints.append((os.path.relpath(os.path.realpath(str(p)), os.path.realpath(d)), l, t)))
+        with core.ordinary_stack():
+            res = fn(lambda p, l, t: prints.append((os.path.relpath(os.path.realpath(str(p)), os.path.realpath(d)), l, t)))
     except pydsdl.InvalidDefinitionError as ex:
         p = os.path.relpath(os.path.realpath(str(ex.path)), os.path.realpath(d)) if ex.path else None
         return ["error", type(ex).__name__, p, ex.line, ex.text.replace(os.path.realpath(d), "<ws>").replace(d, "<ws>")]
@@ -137,6 +139,32 @@ def check_isolation(case: typing.Any, ctx: Ctx) -> Info:
             sib = dict(u, version=[u["version"][0], free[shape.get("minor", 0) % len(free)]], refs=[], text="uint8 a\n@extent %d * 8\n" % (40 + shape.get("minor", 0) % 7))
             defs.append(sib)
             sibling_index = len(defs) - 1
+    deep_host = None
+    deep = case.get("deep")
+    if deep is not None and fault_desc is None and not ws.get("twins"):
+        # a further target `Dp0` at the head of a reference chain of the drawn length (none, a few, several dozen links), whose last
+        # member *spells* the names and versions of the definitions outside the closure - inside string literals, where they are no
+        # references at all.  Nothing that finds its dependencies by looking at the text instead of parsing it may be misled by that,
+        # however deep in the chain it happens.
+        n0 = len(defs)
+        if case["mode"] == "namespace":
+            host_root = case["root"] % len(ws["roots"])
+            pre_targets = wsp.defs_under_root(ws, host_root)
+        else:
+            pre_targets = sorted({t_ % n0 for t_ in case["targets"]})
+            host_root = defs[pre_targets[0]]["root"]
+        pre_closure = wsp.closure(ws, pre_targets)
+        outside_pre = [i for i in range(n0) if i not in pre_closure]
+        base = {"root": host_root, "ns": ["deepchain"], "version": [1, 0], "port": None, "service": False, "sealed": True, "size": 1, "deprecated": False, "legacy": False}
+        deep_host = len(defs)
+        for k in range(deep["len"] + 1):
+            refs = [{"to": deep_host + k + 1, "absolute": bool(deep.get("absolute")), "array": None, "expr": False}] if k < deep["len"] else []
+            defs.append(dict(base, short="Dp%d" % k, refs=refs))
+        tail_lines = wsp.body(ws, len(defs) - 1, defs[-1])
+        for i in outside_pre[:5]:
+            x = defs[i]
+            tail_lines.append("@assert '%s.%d.%d' != \"see also %s.%d.%d[<=2] and others\"" % (wsp.full_name(ws, x), x["version"][0], x["version"][1], x["short"], x["version"][0], x["version"][1]))
+        defs[-1]["text"] = "\n".join(tail_lines + ["@sealed"]) + "\n"
     n = len(defs)
     d = ctx.scratch()
     try:
@@ -164,11 +192,14 @@ def check_isolation(case: typing.Any, ctx: Ctx) -> Info:
 
         else:
             targets = []
+            n_drawn = deep_host if deep_host is not None else n  # (the chain added above is not among the drawn targets)
             for t_ in case["targets"]:
-                if t_ % n not in targets:
-                    targets.append(t_ % n)
+                if t_ % n_drawn not in targets:
+                    targets.append(t_ % n_drawn)
             if forced_targets is not None:
                 targets = forced_targets
+            elif deep_host is not None:
+                targets = [t_ for t_ in targets if t_ < deep_host] + [deep_host]
             paths = [os.path.join(d, wsp.rel_path(ws, defs[i])) for i in targets]
 
             def run(handler: typing.Any) -> typing.Any:
@@ -277,6 +308,8 @@ def check_isolation(case: typing.Any, ctx: Ctx) -> Info:
     closure_dirs = {os.path.dirname(wsp.rel_path(ws, defs[i])) for i in closure}
     related = any(wsp.full_name(ws, defs[i]) in closure_names or os.path.dirname(wsp.rel_path(ws, defs[i])) in closure_dirs for i in victims)
     classes = ["mode:" + mode, "outcome:" + before[0], "victims:%d" % len(victims), "added:%d" % len(added)] + (["related-victim"] if related else [])
+    if deep_host is not None:
+        classes.append("names-spelled-in-strings:chain-%s" % ("0" if deep["len"] == 0 else "short" if deep["len"] < 30 else "deep"))
     if fault_desc is not None:
         classes.append("closure-fault:" + fault_desc["kind"])
     return Info(bool(related or added), classes, sample=where[:1200])
@@ -389,6 +422,7 @@ def parts(ctx: Ctx) -> typing.List[Part]:
             "extra": st.one_of(st.none(), st.fixed_dictionaries({"root": st.integers(0, 3), "set": st.integers(0, len(EXTRA_SETS) - 1)})),
             "pre_extra": st.one_of(st.none(), st.none(), st.fixed_dictionaries({"root": st.integers(0, 3), "set": st.integers(0, len(PRE_EXTRA_SETS) - 1), "which": st.integers(0, 1)})),
             "malformed": st.one_of(st.none(), st.none(), st.integers(0, 2)),
+            "deep": st.one_of(st.none(), st.none(), st.fixed_dictionaries({"len": st.sampled_from([0, 1, 3, 33, 40]), "absolute": st.booleans()})),
         }
     )
     step = st.fixed_dictionaries({"targets": st.lists(st.integers(0, 30), min_size=0, max_size=2), "one_user": st.one_of(st.none(), st.integers(0, 1), st.integers(0, 1)), "handler": st.booleans()}).filter(
